@@ -6,7 +6,7 @@ from pydiffx.errors import BaseDiffXError, DiffXSectionOrderError
 
 from mc import spec, wrgraph
 from mc.explore import Acc, freeze
-from mc.observe import (AppendOnlyStream, ForbiddenStreamOp, apply_call,
+from mc.observe import (AppendOnlyStream, ForbiddenStreamOp, apply_call, fresh,
                         freeze_writer, site_of, module_globals_snapshot)
 from mc.spec import to_jsonable, from_jsonable
 
@@ -424,6 +424,7 @@ def plan(tier):
         for h in hs:
             units.append(('hostile', root, [list(c) for c in h]))
     units.append(('handover', 'utf-8'))
+    units.append(('call-syntax', 'utf-8'))
     nsh = len(scale_hostile_calls())
     for lo in range(0, nsh, 6):
         units.append(('scale-hostile', 'utf-8', lo, min(lo + 6, nsh)))
@@ -466,6 +467,77 @@ def OPT_UNITS(tier):
     return keep
 
 
+# the public signatures (positional order and parameter names) as pinned:
+#   DiffXWriter(fp, encoding, version); new_change(encoding);
+#   new_file(encoding); write_preamble(text, encoding, indent,
+#   line_endings, mimetype); write_meta(metadata, encoding, meta_format);
+#   write_diff(content, diff_type, encoding, line_endings)
+SYNTAX_CALLS = [
+    ('write_preamble', (), {'text': 'by name\n', 'indent': 0}),
+    ('new_change', ('latin-1',), {}),
+    ('write_preamble', ('summary\n', 'utf-8', 2, 'unix', 'text/markdown'),
+     {}),
+    ('write_meta', ({'k': 'v'}, 'utf-8', 'json'), {}),
+    ('new_file', ('utf-16',), {}),
+    ('write_meta', (), {'metadata': {'path': 'f'}, 'encoding': 'utf-8'}),
+    ('write_diff', (b'-a\n+b\n', 'text', 'utf-8', 'unix'), {}),
+    ('new_file', (), {'encoding': None}),
+    ('write_meta', ({'path': 'g'},), {'meta_format': 'json'}),
+    ('write_diff', (), {'content': b'x\n', 'diff_type': 'binary'}),
+]
+SYNTAX_KEYWORD_FORM = [
+    ['preamble', 'by name\n', None, 0, None, None],
+    ['change', 'latin-1'],
+    ['preamble', 'summary\n', 'utf-8', 2, 'unix', 'text/markdown'],
+    ['meta', {'k': 'v'}, 'utf-8'], ['file', 'utf-16'],
+    ['meta', {'path': 'f'}, 'utf-8'],
+    ['diff', b'-a\n+b\n', 'text', 'utf-8', 'unix'], ['file', None],
+    ['meta', {'path': 'g'}, None], ['diff', b'x\n', 'binary', None, None],
+]
+
+
+def check_call_syntax(ctor):
+    """Options passed by position and contents passed by name are the same
+    calls: accepted where the order is legal, same bytes."""
+    from mc import spec
+    want, _ = spec.serialize(SYNTAX_KEYWORD_FORM, 'utf-16')
+    s1 = AppendOnlyStream()
+    try:
+        if ctor == 'positional':
+            w = DiffXWriter(s1, 'utf-16', '1.0')
+        elif ctor == 'by-name':
+            w = DiffXWriter(fp=s1, encoding='utf-16', version='1.0')
+        else:
+            w = DiffXWriter(s1, version='1.0', encoding='utf-16')
+        for i, (meth, a, k) in enumerate(SYNTAX_CALLS):
+            getattr(w, meth)(*fresh(list(a)), **fresh(k))
+    except Exception as e:
+        return [('legal-call-rejected:call-syntax:%s:%s'
+                 % (type(e).__name__, site_of(e)),
+                 'constructor %s, then %r: %r' % (ctor, SYNTAX_CALLS[:3], e))]
+    if bytes(s1.buf) != want:
+        return [('call-syntax-changes-output',
+                 'positional / by-name calls wrote %r..., keyword calls '
+                 '%r...' % (bytes(s1.buf)[-60:], want[-60:]))]
+    return []
+
+
+def run_call_syntax_unit():
+    acc = Acc()
+    for ctor in ('positional', 'by-name', 'mixed'):
+        viols = check_call_syntax(ctor)
+        acc.evals += 1
+        acc.states += 1
+        acc.transitions += len(SYNTAX_CALLS)
+        acc.validated += 1
+        acc.nontrivial += 1
+        for key, msg in viols:
+            acc.violation(key, msg, {'kind': 'call-syntax', 'ctor': ctor})
+        acc.outcome('ok' if not viols else 'violation')
+    acc.sample({'call_syntax': 'options by position, contents by name'}, 1)
+    return acc
+
+
 def run_handover_unit():
     acc = Acc()
     for how in ('deepcopy', 'assign-fp', 'assign-fp-then-rejected',
@@ -489,6 +561,8 @@ def run_handover_unit():
 def run_unit(unit, tier):
     if unit[0] == 'handover':
         return run_handover_unit()
+    if unit[0] == 'call-syntax':
+        return run_call_syntax_unit()
     acc = Acc()
     g0 = module_globals_snapshot()
     if unit[0] in ('seq', 'seq-short'):
@@ -597,6 +671,9 @@ def _nontrivial(s):
 
 
 def replay(payload):
+    if payload.get('kind') == 'call-syntax':
+        return [{'key': k, 'msg': m}
+                for k, m in check_call_syntax(payload['ctor'])]
     if payload.get('kind') == 'handover':
         return [{'key': k, 'msg': m} for k, m in check_handover(
             payload['split'], payload['how'])]
